@@ -139,8 +139,9 @@ def _simulated(ctx, binary, name, c, num, depth, max_replay):
     # (G, tracked) the operations of the same behaviours, then every node runs the body of the real poller loop
     # (repair_members with its keyspace tracker) against all others until a whole round asks for no difference
     rep["tracked"] = whole("tracked", n_tracked)
-    if rep["tracked"]["poller_fixpoints"] == 0:
-        raise vlib.ToolError("vacuous: no behaviour reached the poller's fixpoint in tracked mode")
+    if rep["tracked"]["poller_fixpoints"] < 0.9 * rep["tracked"]["behaviours"]:
+        raise vlib.ToolError("tracked mode: only %d of %d behaviours reached the poller's fixpoint within six rounds" % (
+            rep["tracked"]["poller_fixpoints"], rep["tracked"]["behaviours"]))
     os.remove(out_file)
     # (V) what every keyspace actor of the real nodes did during the replay, against Trace_KeyspaceActor.tla
     rep["actor_trace"] = actor_traces.validate(ctx, actor_trace.files_in(actors_dir), "actors_" + name, ACTOR_PROPS[ctx.prop],
